@@ -35,6 +35,10 @@ type c17Case struct {
 	// Prior: what was done with the same view value before the export that is
 	// judged: 0 nothing, 1 a complete Walk of it, 2 another WriteTar
 	Prior int `json:"prior,omitempty"`
+	// Bare: a single pattern filter straight over the directory, exported without
+	// the hard-link reset wrapper: a filter that never looks at the names it hides
+	// yields a self-contained view by itself
+	Bare bool `json:"bare,omitempty"`
 }
 
 var c17TreeCfg = h.TreeCfg{
@@ -62,12 +66,24 @@ func genC17(t *rapid.T) *c17Case {
 				c.Hide = append(c.Hide, n.LinkTo)
 			}
 		}
+		// or hide the first name of a link group with a pattern of the filter itself
+		// (its directory stays): the next visible name must become the file
+		for _, n := range c.Tree.Nodes {
+			if n.LinkTo != "" && rapid.IntRange(0, 2).Draw(t, "excludefirst"+n.Path) == 0 {
+				c.Exclude = append(c.Exclude, n.LinkTo)
+				break
+			}
+		}
 	}
 	if rapid.IntRange(0, 4).Draw(t, "long") == 0 {
 		c.Long = rapid.SampledFrom([]int{101, 156, 256, 300}).Draw(t, "longn")
 	}
 	if rapid.IntRange(0, 2).Draw(t, "priormode") == 0 {
 		c.Prior = rapid.IntRange(1, 2).Draw(t, "prior")
+	}
+	if c.View == "filtered" && rapid.IntRange(0, 2).Draw(t, "bare") == 0 {
+		c.Bare = true
+		c.Hide = nil
 	}
 	return c
 }
@@ -175,8 +191,13 @@ func c17Check(env *h.Env, c *c17Case) error {
 					return h.Infra(err)
 				}
 			}
-			// the form Send uses: a filtered view is only self-contained with the hard-link reset
+			// the form Send uses: a view whose lower layers looked at hidden names is only
+			// self-contained with the hard-link reset
 			view = fsutil.WithHardlinkReset(fv)
+			if c.Bare {
+				env.Class("bare-filter-view")
+				view = fv
+			}
 			got, err := collectFS(view, "/")
 			if err != nil {
 				return fmt.Errorf("walk of the filtered view failed: %v", err)
